@@ -34,6 +34,9 @@ fn all_lists(max: usize, sorted_only: bool, f: &mut dyn FnMut(Vec<String>) -> bo
 
 /// larger generated lists (duplicates, shared prefixes, empty strings) for the >=32 radix and >512 block-search paths
 fn big_list(n: usize, shape: u8) -> Vec<String> {
+    if shape >= 3 {
+        return big_list_audit(n, shape);
+    }
     (0..n)
         .map(|i| {
             let k = match shape {
@@ -52,6 +55,46 @@ fn big_list(n: usize, shape: u8) -> Vec<String> {
                     x /= 3;
                 }
                 s
+            }
+        })
+        .collect()
+}
+
+/// (coverage audit) shapes 3..=5:
+/// 3 = every string starts with the same 8 or 16 bytes (the MSD radix recursion has to go deeper than one machine word, a
+///     word-wise comparison has to get past equal words) and continues with base-3 digits or a character >= U+0080;
+/// 4 = few distinct values, each repeated >= 32 times (a radix bucket of equal strings that is itself above the
+///     insertion-sort cut-off), among them the empty string, a prefix pair and multi-byte characters;
+/// 5 = lengths 0..=700 (longer than a 256-bit rank/select line of ZoSortedStrVec, longer than any SIMD block)
+fn big_list_audit(n: usize, shape: u8) -> Vec<String> {
+    (0..n)
+        .map(|i| {
+            let k = (i * 7919 + i / 5) % (n + 3);
+            match shape {
+                3 => {
+                    let mut s = String::from(if k % 2 == 0 { "abcdefgh" } else { "abcdefghabcdefgh" });
+                    let mut x = k / 2;
+                    while x > 0 {
+                        match x % 4 {
+                            0 => s.push('a'),
+                            1 => s.push('b'),
+                            2 => s.push('\u{7f}'),
+                            _ => s.push('\u{e9}'),
+                        }
+                        x /= 4;
+                    }
+                    s
+                }
+                4 => ["", "ab", "abcdefgh", "abcdefgha", "\u{e9}", "abcdefgh\u{e9}", "b"][k % 7].to_string(),
+                _ => {
+                    let len = (k * 37) % 701;
+                    let c = (b'a' + (k % 3) as u8) as char;
+                    let mut s: String = std::iter::repeat(c).take(len).collect();
+                    if k % 4 == 0 && len > 0 {
+                        s.push('\u{10FFFF}');
+                    }
+                    s
+                }
             }
         })
         .collect()
@@ -82,7 +125,7 @@ fn walk_forward<I: LexicographicIterator>(it: &mut I) -> Result<Vec<String>, Fai
 
 fn run_sorted_vec(c: &ListCase) -> R {
     let l = &c.list;
-    let mk = || if c.v == 0 { SortedVecLexIterator::new(l) } else { LexIteratorBuilder::new().optimize_for_memory(c.v == 2).buffer_size(16).build_sorted_vec(l) };
+    let mk = || if c.v == 0 || c.v == 3 { SortedVecLexIterator::new(l) } else { LexIteratorBuilder::new().optimize_for_memory(c.v == 2).buffer_size(16).build_sorted_vec(l) };
     let mut it = mk();
     ensure!(it.current() == l.first().map(|s| s.as_str()) && it.size_hint() == Some(l.len()) && it.is_at_start() == !l.is_empty() && it.is_at_end() == l.is_empty(), "enumeration", "initial", "fresh iterator: current {:?}", it.current());
     let fw = walk_forward(&mut it)?;
@@ -105,7 +148,17 @@ fn run_sorted_vec(c: &ListCase) -> R {
     ensure!(&bw == l, "enumeration", "backward", "backward walk yields (reversed) {:?}, list is {:?}", bw, l);
     ensure!(must(it.seek_start(), "enumeration", "seek_start")? == !l.is_empty() && it.current() == l.first().map(|s| s.as_str()), "enumeration", "seek_start", "seek_start: current {:?}", it.current());
     // lower bound: "binary search for the first string >= target; true iff exact match"
-    for t in PROBES {
+    let mut probes: Vec<String> = PROBES.iter().map(|s| s.to_string()).collect();
+    if c.v >= 3 {
+        for s in l.iter() {
+            probes.push(s.clone());
+            probes.push(format!("{s}\u{1}"));
+        }
+        probes.extend(UNI_WORDS.iter().map(|s| s.to_string()));
+        probes.sort();
+        probes.dedup();
+    }
+    for t in probes.iter().map(|s| s.as_str()) {
         let mut it = mk();
         let exact = must(it.seek_lower_bound(t), "lower_bound", "err")?;
         let idx = l.iter().position(|s| s.as_str() >= t);
@@ -115,7 +168,7 @@ fn run_sorted_vec(c: &ListCase) -> R {
         ensure!(cur.as_deref() == idx.map(|i| l[i].as_str()) && rest[..] == l[idx.unwrap_or(l.len())..], "lower_bound", dup_class(l, t), "seek_lower_bound({t:?}) on {:?} positions at {:?} and then yields {:?}; the strings >= target are {:?}", l, cur, rest, &l[idx.unwrap_or(l.len())..]);
     }
     // upper bound: "first string > target"
-    for t in PROBES {
+    for t in probes.iter().map(|s| s.as_str()) {
         let mut it = mk();
         let r = must(it.seek_upper_bound(t), "upper_bound", "err")?;
         let idx = l.iter().position(|s| s.as_str() > t);
@@ -124,23 +177,50 @@ fn run_sorted_vec(c: &ListCase) -> R {
         ensure!(!r, "upper_bound", "flag", "seek_upper_bound returned true");
         ensure!(cur.as_deref() == idx.map(|i| l[i].as_str()) && rest[..] == l[idx.unwrap_or(l.len())..], "upper_bound", dup_class(l, t), "seek_upper_bound({t:?}) on {:?} positions at {:?} and then yields {:?}; the strings > target are {:?}", l, cur, rest, &l[idx.unwrap_or(l.len())..]);
     }
-    for p in ["", "a", "ab", "b", "c"] {
+    for p in ["", "a", "ab", "b", "c", "a\u{e9}", "\u{e9}", "\u{20ac}"] {
         let n = must(lex_utils::count_with_prefix(mk(), p), "count_with_prefix", "err")?;
         let want = l.iter().filter(|s| s.starts_with(p)).count();
         ensure!(n == want, "count_with_prefix", dup_class(l, p), "count_with_prefix({p:?}) on {:?} = {n}, want {want}", l);
     }
     let lcp = must(lex_utils::find_common_prefix(mk()), "common_prefix", "err")?;
+    // (audit: the common prefix in whole characters - identical to the byte-wise one for ASCII)
     let want = match l.first() {
         None => String::new(),
         Some(f) => {
-            let mut k = f.len();
+            let mut k = f.chars().count();
             for s in l {
-                k = k.min(f.bytes().zip(s.bytes()).take_while(|(x, y)| x == y).count());
+                k = k.min(f.chars().zip(s.chars()).take_while(|(x, y)| x == y).count());
             }
-            f[..k].to_string()
+            f.chars().take(k).collect()
         }
     };
     ensure!(lcp == want, "common_prefix", "value", "find_common_prefix({:?}) = {lcp:?} want {want:?}", l);
+    // (audit) the helpers position the iterator themselves: hand them one that stands somewhere else
+    for moved in 0..3u8 {
+        let mk_moved = || -> Result<SortedVecLexIterator, Fail> {
+            let mut it = mk();
+            match moved {
+                0 => {
+                    must(it.seek_end(), "enumeration", "seek_end")?;
+                }
+                1 => {
+                    while must(it.next(), "enumeration", "next")? {}
+                }
+                _ => {
+                    must(it.seek_upper_bound("a"), "upper_bound", "err")?;
+                }
+            }
+            Ok(it)
+        };
+        let all = must(lex_utils::collect_all(mk_moved()?), "enumeration", "collect_all_err")?;
+        ensure!(&all == l, "enumeration", "collect_all/moved_iterator", "collect_all on an iterator that is not at the start yields {:?}, list is {:?}", all, l);
+        let lcp = must(lex_utils::find_common_prefix(mk_moved()?), "common_prefix", "err")?;
+        ensure!(lcp == want, "common_prefix", "moved_iterator", "find_common_prefix on an iterator that is not at the start = {lcp:?} want {want:?} for {:?}", l);
+        for p in ["", "a", "b"] {
+            let n = must(lex_utils::count_with_prefix(mk_moved()?, p), "count_with_prefix", "err")?;
+            ensure!(n == l.iter().filter(|s| s.starts_with(p)).count(), "count_with_prefix", "moved_iterator", "count_with_prefix({p:?}) on an iterator that is not at the start = {n} for {:?}", l);
+        }
+    }
     Ok(if l.is_empty() { Outcome::trivial("empty") } else { Outcome::pass(if l.windows(2).any(|w| w[0] == w[1]) { "with_duplicates" } else { "unique" }) })
 }
 
@@ -246,6 +326,19 @@ fn run_sortable(c: &ListCase) -> R {
     for p in PROBES.iter().copied().chain(l.iter().map(|s| s.as_str()).take(8)) {
         check_search(&v, &sorted, p)?;
     }
+    // (audit) every element and a value just above every element: hits each block boundary of the block search (n > 512),
+    // the last element of a block, the first of the next one, and every insertion point
+    if l.len() >= 31 || l.iter().any(|s| s.len() >= 7) {
+        let mut distinct = sorted.clone();
+        distinct.dedup();
+        for s in &distinct {
+            check_search(&v, &sorted, s)?;
+            check_search(&v, &sorted, &format!("{s}\u{1}"))?;
+        }
+        for i in 0..=sorted.len() {
+            ensure!(v.get_sorted(i) == sorted.get(i).map(|s| s.as_str()), "sorted_enumeration", format!("{how}/get_sorted"), "get_sorted({i}) = {:?}", v.get_sorted(i));
+        }
+    }
     // by length: non-decreasing lengths, same multiset
     must(v.sort_by_length(), "sorted_enumeration", "sort_by_length_err")?;
     let got: Vec<String> = v.iter_sorted().map(|s| s.to_string()).collect();
@@ -334,7 +427,7 @@ fn run_zo(c: &ListCase) -> R {
     let got: Vec<&str> = z.iter().collect();
     ensure!(got == want.iter().map(|s| s.as_str()).collect::<Vec<_>>(), "sorted_enumeration", how.to_string(), "{how}({:?}): iter() yields {:?} want {:?}", &l[..l.len().min(12)], &got[..got.len().min(12)], &want[..want.len().min(12)]);
     ensure!(z.iter().len() == want.len(), "sorted_enumeration", format!("{how}/size_hint"), "ExactSizeIterator len {}", z.iter().len());
-    for i in 0..=want.len().min(40) {
+    for i in 0..=want.len() {
         ensure!(z.get(i) == want.get(i).map(|s| s.as_str()), "sorted_enumeration", format!("{how}/get"), "get({i}) = {:?}", z.get(i));
     }
     ensure!(z.get(want.len()).is_none(), "sorted_enumeration", format!("{how}/get"), "get(len) is Some");
@@ -352,8 +445,12 @@ fn run_zo(c: &ListCase) -> R {
     for s in PROBES {
         for e in PROBES {
             if s > e {
+                // (audit) an empty interval: nothing lies in [s, e)
+                let r = z.range(s, e);
+                ensure!(r.len() == 0 && z.range(s, e).next().is_none(), "range", "reversed_bounds", "range({s:?}, {e:?}) (start > end) over {:?} is not empty", &want[..want.len().min(12)]);
                 continue;
             }
+            ensure!(z.range(s, e).len() == want.iter().filter(|x| x.as_str() >= s && x.as_str() < e).count(), "range", "exact_size", "range({s:?}, {e:?}).len() = {}", z.range(s, e).len());
             let got: Vec<&str> = z.range(s, e).collect();
             let exp: Vec<&str> = want.iter().map(|x| x.as_str()).filter(|x| *x >= s && *x < e).collect();
             let class = if want.iter().filter(|x| x.as_str() == s).count() >= 2 || want.iter().filter(|x| x.as_str() == e).count() >= 2 { "duplicates_of_a_bound" } else { "no_duplicates_of_a_bound" };
@@ -410,12 +507,535 @@ fn run_join(c: &JoinCase) -> R {
     Ok(if parts.is_empty() { Outcome::trivial("empty") } else { Outcome::pass(&class) })
 }
 
+
+// =============================================================================================
+// Coverage audit: stateful histories, buffer boundaries, long keys, field-width limits, join grid
+
+// ---- one SortedVecLexIterator driven through a history of cursor operations -------------------
+
+#[derive(Serialize, Deserialize, Hash, Clone, Debug)]
+pub struct IterHist {
+    list: Vec<String>,
+    /// 0 next, 1 prev, 2 seek_start, 3 seek_end, 4..=7 seek_lower_bound(T[i-4]), 8..=11 seek_upper_bound(T[i-8])
+    ops: Vec<u8>,
+}
+const HIST_TARGETS: [&str; 4] = ["", "a", "ab", "c"];
+
+fn hist_op_name(op: u8) -> String {
+    match op {
+        0 => "next".into(),
+        1 => "prev".into(),
+        2 => "seek_start".into(),
+        3 => "seek_end".into(),
+        4..=7 => format!("seek_lower_bound({:?})", HIST_TARGETS[op as usize - 4]),
+        _ => format!("seek_upper_bound({:?})", HIST_TARGETS[op as usize - 8]),
+    }
+}
+
+fn run_iter_hist(c: &IterHist) -> R {
+    let l = &c.list;
+    let n = l.len();
+    let mut it = SortedVecLexIterator::new(l);
+    // model: index of the current string, None = no current string (past the end / empty collection)
+    let mut pos: Option<usize> = if n == 0 { None } else { Some(0) };
+    let mut trace = String::new();
+    let dups = l.windows(2).any(|w| w[0] == w[1]);
+    for (step, &op) in c.ops.iter().enumerate() {
+        trace.push_str(&hist_op_name(op));
+        trace.push(' ');
+        let ret: bool;
+        let want_ret: bool;
+        match op {
+            0 => {
+                ret = must(it.next(), "history", "next_err")?;
+                match pos {
+                    Some(p) if p + 1 < n => {
+                        pos = Some(p + 1);
+                        want_ret = true;
+                    }
+                    _ => {
+                        pos = None;
+                        want_ret = false;
+                    }
+                }
+            }
+            1 => {
+                if pos.is_none() && n > 0 {
+                    // moving back from "past the end" is not specified by the trait ("false if at beginning")
+                    return Ok(Outcome::skip("prev() from the past-the-end position is unspecified"));
+                }
+                ret = must(it.prev(), "history", "prev_err")?;
+                match pos {
+                    Some(p) if p > 0 => {
+                        pos = Some(p - 1);
+                        want_ret = true;
+                    }
+                    _ => want_ret = false, // at the beginning: stays on the first string
+                }
+            }
+            2 => {
+                ret = must(it.seek_start(), "history", "seek_err")?;
+                pos = if n == 0 { None } else { Some(0) };
+                want_ret = n > 0;
+            }
+            3 => {
+                ret = must(it.seek_end(), "history", "seek_err")?;
+                pos = n.checked_sub(1);
+                want_ret = n > 0;
+            }
+            4..=7 => {
+                let t = HIST_TARGETS[op as usize - 4];
+                ret = must(it.seek_lower_bound(t), "history", "seek_err")?;
+                pos = l.iter().position(|s| s.as_str() >= t);
+                want_ret = l.iter().any(|s| s == t);
+            }
+            _ => {
+                let t = HIST_TARGETS[op as usize - 8];
+                ret = must(it.seek_upper_bound(t), "history", "seek_err")?;
+                pos = l.iter().position(|s| s.as_str() > t);
+                want_ret = false;
+            }
+        }
+        let class = format!("{}/{}", hist_op_name(op).split('(').next().unwrap(), if step == 0 { "first_op" } else { "after_other_ops" });
+        ensure!(ret == want_ret, "history", format!("return_value/{class}"), "[{trace}] on {:?}: returned {ret}, want {want_ret}", l);
+        let cur = it.current();
+        ensure!(cur == pos.map(|p| l[p].as_str()), "history", format!("current/{class}"), "[{trace}] on {:?}: current() = {:?}, want {:?} (index {:?})", l, cur, pos.map(|p| l[p].as_str()), pos);
+        ensure!(it.is_at_end() == pos.is_none() && it.is_at_start() == (pos == Some(0)) && it.size_hint() == Some(n), "history", format!("observers/{class}"), "[{trace}] on {:?}: is_at_start {} is_at_end {} size_hint {:?} at index {:?}", l, it.is_at_start(), it.is_at_end(), it.size_hint(), pos);
+    }
+    // from wherever the history ended: the rest of the collection, each string once, in order
+    let rest = walk_forward(&mut it)?;
+    let from = pos.unwrap_or(n);
+    ensure!(rest[..] == l[from..], "history", if dups { "rest/with_duplicates" } else { "rest/unique" }, "[{trace}] on {:?}: walking on yields {:?}, want {:?}", l, rest, &l[from..]);
+    Ok(if c.ops.is_empty() { Outcome::trivial("no-ops") } else { Outcome::pass(&format!("{}ops/{}", c.ops.len(), if dups { "with_duplicates" } else { "unique" })) })
+}
+
+// ---- StreamingLexIterator: lines around the reader's buffer size, readers that deliver little at a time ---------
+
+/// a reader that hands out at most `chunk` bytes per read call
+struct Chunked {
+    data: Vec<u8>,
+    at: usize,
+    chunk: usize,
+}
+impl std::io::Read for Chunked {
+    fn read(&mut self, buf: &mut [u8]) -> std::io::Result<usize> {
+        let k = self.chunk.min(buf.len()).min(self.data.len() - self.at);
+        buf[..k].copy_from_slice(&self.data[self.at..self.at + k]);
+        self.at += k;
+        Ok(k)
+    }
+}
+
+#[derive(Serialize, Deserialize, Hash, Clone, Debug)]
+pub struct StreamGrid {
+    /// length of the long line (all 'a')
+    long: usize,
+    /// 0 = the long line is the first line, 1 = one empty line before it, 2 = the line "0" before it
+    lead: u8,
+    /// 0 = LF after every line, 1 = no LF after the last line, 2 = CRLF
+    style: u8,
+    /// 0 = Cursor, otherwise a reader delivering at most this many bytes per call
+    chunk: usize,
+}
+
+fn check_stream<R: std::io::Read>(mut it: StreamingLexIterator<R>, l: &[String], what: &str) -> Result<(), Fail> {
+    ensure!(it.current().is_none() && !it.is_at_end(), "enumeration", "streaming_grid/initial", "{what}: before the first next(): current {:?}, is_at_end {}", it.current().map(|s| s.len()), it.is_at_end());
+    for (i, want) in l.iter().enumerate() {
+        let ok = it.next().map_err(|e| bad("enumeration", "streaming_grid/next_err", e.to_string()))?;
+        ensure!(ok, "enumeration", "streaming_grid/lost_line", "{what}: next() returned false at line {} of {}", i + 1, l.len());
+        let cur = it.current();
+        ensure!(cur == Some(want.as_str()), "enumeration", "streaming_grid/line", "{what}: line {}: got a string of {:?} bytes (starts {:?}), want {} bytes (starts {:?})", i + 1, cur.map(|s| s.len()), cur.map(|s| &s[..s.len().min(4)]), want.len(), &want[..want.len().min(4)]);
+        ensure!(it.current() == cur && !it.is_at_end(), "enumeration", "streaming_grid/current_stable", "{what}: current() changes without next()");
+    }
+    for _ in 0..3 {
+        let more = it.next().map_err(|e| bad("enumeration", "streaming_grid/next_err", e.to_string()))?;
+        ensure!(!more && it.current().is_none() && it.is_at_end(), "enumeration", "streaming_grid/end", "{what}: after the last line next() = {more}, current() = {:?}", it.current().map(|s| s.len()));
+    }
+    Ok(())
+}
+
+fn run_stream_grid(c: &StreamGrid) -> R {
+    let mut l: Vec<String> = Vec::new();
+    match c.lead {
+        1 => l.push(String::new()),
+        2 => l.push("0".to_string()),
+        _ => {}
+    }
+    l.push("a".repeat(c.long));
+    l.extend(["b", "b", "cc"].iter().map(|s| s.to_string()));
+    let mut text = String::new();
+    for (i, s) in l.iter().enumerate() {
+        text.push_str(s);
+        match c.style {
+            1 if i + 1 == l.len() => {}
+            2 => text.push_str("\r\n"),
+            _ => text.push('\n'),
+        }
+    }
+    let what = format!("long line of {} bytes, lead {}, style {}, chunk {}", c.long, c.lead, c.style, c.chunk);
+    if c.chunk == 0 {
+        check_stream(StreamingLexIterator::new(Cursor::new(text.into_bytes())), &l, &what)?;
+    } else {
+        check_stream(LexIteratorBuilder::new().build_streaming(Chunked { data: text.into_bytes(), at: 0, chunk: c.chunk }), &l, &what)?;
+    }
+    Ok(Outcome::pass(&format!("long{}8192/style{}", if c.long < 8192 { "<" } else if c.long == 8192 { "=" } else { ">" }, c.style)))
+}
+
+// ---- SortableStrVec: one vector driven through a history of pushes, sorts and clears ---------------------------
+
+#[derive(Serialize, Deserialize, Hash, Clone, Debug)]
+pub struct VecHist {
+    /// 0 = new(); 1 = with_capacity(4) + ["b", "", "a"]; 2 = 33 generated strings, sorted with sort(); 3 = default() + ["ab", "b"] + sort_by_length
+    start: u8,
+    /// 0..=2 push_str of "", "b", "aa"; 3 sort; 4 radix_sort; 5 sort_lexicographic; 6 sort_by_length; 7 sort_by(descending);
+    /// 8 clear; 9 reserve(8) + shrink_to_fit; 10 replace the vector by its clone
+    ops: Vec<u8>,
+}
+const VH_PUSH: [&str; 3] = ["", "b", "aa"];
+const VH_OPS: [&str; 11] = ["push(\"\")", "push(\"b\")", "push(\"aa\")", "sort", "radix_sort", "sort_lexicographic", "sort_by_length", "sort_by(desc)", "clear", "reserve+shrink", "clone"];
+
+#[derive(Clone, Copy, PartialEq, Debug)]
+enum View {
+    NoView,
+    Lex,
+    ByLen,
+    Desc,
+}
+
+fn vh_observe(v: &SortableStrVec, items: &[String], view: View, trace: &str, last: &str) -> Result<(), Fail> {
+    ensure!(v.len() == items.len() && v.is_empty() == items.is_empty(), "history", format!("len/after_{last}"), "[{trace}]: len() = {} for {} strings", v.len(), items.len());
+    let it: Vec<&str> = v.iter().collect();
+    ensure!(it == items.iter().map(|s| s.as_str()).collect::<Vec<_>>(), "history", format!("iter/after_{last}"), "[{trace}]: iter() yields {:?} want {:?}", &it[..it.len().min(12)], &items[..items.len().min(12)]);
+    for i in 0..=items.len() {
+        ensure!(v.get(i) == items.get(i).map(|s| s.as_str()) && v.get_by_id(i) == v.get(i), "history", format!("get/after_{last}"), "[{trace}]: get({i}) = {:?}", v.get(i));
+    }
+    let got: Vec<&str> = v.iter_sorted().collect();
+    let mut sorted: Vec<String> = items.to_vec();
+    sorted.sort();
+    match view {
+        View::NoView => {
+            ensure!(got.is_empty() && v.get_sorted(0).is_none(), "history", format!("stale_sorted_view/after_{last}"), "[{trace}]: a sorted view ({} strings) is served although strings were pushed (or the vector cleared) since the last sort", got.len());
+        }
+        View::Lex => {
+            ensure!(got == sorted.iter().map(|s| s.as_str()).collect::<Vec<_>>(), "history", format!("sorted_view/after_{last}"), "[{trace}]: iter_sorted() yields {:?} ({}), want {:?} ({})", &got[..got.len().min(12)], got.len(), &sorted[..sorted.len().min(12)], sorted.len());
+            for i in 0..=sorted.len() {
+                ensure!(v.get_sorted(i) == sorted.get(i).map(|s| s.as_str()), "history", format!("get_sorted/after_{last}"), "[{trace}]: get_sorted({i}) = {:?}", v.get_sorted(i));
+            }
+            for p in PROBES {
+                check_search(v, &sorted, p).map_err(|f| bad("history", format!("binary_search/after_{last}"), format!("[{trace}]: {}", f.detail)))?;
+            }
+        }
+        View::ByLen => {
+            let mut ms: Vec<String> = got.iter().map(|s| s.to_string()).collect();
+            ensure!(ms.windows(2).all(|w| w[0].len() <= w[1].len()), "history", format!("by_length_view/after_{last}"), "[{trace}]: sort_by_length view {:?}", &got[..got.len().min(12)]);
+            ms.sort();
+            ensure!(ms == sorted, "history", format!("by_length_view/after_{last}"), "[{trace}]: sort_by_length view is not a permutation of the content ({} of {} strings)", got.len(), sorted.len());
+        }
+        View::Desc => {
+            sorted.reverse();
+            ensure!(got == sorted.iter().map(|s| s.as_str()).collect::<Vec<_>>(), "history", format!("desc_view/after_{last}"), "[{trace}]: sort_by(desc) view {:?} ({}), want {:?} ({})", &got[..got.len().min(12)], got.len(), &sorted[..sorted.len().min(12)], sorted.len());
+        }
+    }
+    Ok(())
+}
+
+fn run_vec_hist(c: &VecHist) -> R {
+    let mut items: Vec<String> = Vec::new();
+    let mut view = View::NoView;
+    let mut v = match c.start {
+        0 => SortableStrVec::new(),
+        1 => {
+            let mut v = SortableStrVec::with_capacity(4);
+            for s in ["b", "", "a"] {
+                must(v.push_str(s), "construct", "push_str")?;
+                items.push(s.to_string());
+            }
+            v
+        }
+        2 => {
+            items = big_list(33, 2);
+            let mut v = must(SortableStrVec::from_iter(items.iter()), "construct", "from_iter")?;
+            must(v.sort(), "history", "sort_err")?;
+            view = View::Lex;
+            v
+        }
+        _ => {
+            let mut v = SortableStrVec::default();
+            for s in ["ab", "b"] {
+                must(v.push(s.to_string()), "construct", "push")?;
+                items.push(s.to_string());
+            }
+            must(v.sort_by_length(), "history", "sort_err")?;
+            view = View::ByLen;
+            v
+        }
+    };
+    let mut trace = format!("start{}", c.start);
+    vh_observe(&v, &items, view, &trace, "start")?;
+    for &op in &c.ops {
+        let name = VH_OPS[op as usize];
+        trace.push(' ');
+        trace.push_str(name);
+        match op {
+            0..=2 => {
+                let id = must(v.push_str(VH_PUSH[op as usize]), "history", "push_err")?;
+                ensure!(id == items.len(), "history", "push_id", "[{trace}]: push returned id {id}, want {}", items.len());
+                items.push(VH_PUSH[op as usize].to_string());
+                view = View::NoView;
+            }
+            3 => {
+                must(v.sort(), "history", "sort_err")?;
+                view = View::Lex;
+            }
+            4 => {
+                must(v.radix_sort(), "history", "sort_err")?;
+                view = View::Lex;
+            }
+            5 => {
+                must(v.sort_lexicographic(), "history", "sort_err")?;
+                view = View::Lex;
+            }
+            6 => {
+                must(v.sort_by_length(), "history", "sort_err")?;
+                view = View::ByLen;
+            }
+            7 => {
+                must(v.sort_by(|a, b| b.cmp(a)), "history", "sort_err")?;
+                view = View::Desc;
+            }
+            8 => {
+                v.clear();
+                items.clear();
+                view = View::NoView;
+            }
+            9 => {
+                v.reserve(8);
+                v.shrink_to_fit();
+            }
+            _ => {
+                let cl = v.clone();
+                v = cl;
+            }
+        }
+        let last = name.split('(').next().unwrap();
+        vh_observe(&v, &items, view, &trace, last)?;
+    }
+    Ok(if c.ops.is_empty() { Outcome::trivial("no-ops") } else { Outcome::pass(&format!("start{}/{}ops/{:?}", c.start, c.ops.len(), view)) })
+}
+
+// ---- SortableStrVec / ZoSortedStrVec: keys that share whole machine words, characters >= U+0080 -------------------
+
+/// multi-byte characters that share their leading byte (U+00E9 / U+00E8: C3 A9 / C3 A8), 3- and 4-byte characters
+const UNI_WORDS: [&str; 9] = ["", "a", "a\u{e8}", "a\u{e9}", "\u{e8}", "\u{e9}", "\u{e9}a", "\u{20ac}", "\u{10FFFF}"];
+
+/// NUL inside strings: outside ZoSortedStrVec's NUL-terminated layout - must be refused, never cut short
+const NUL_WORDS: [&str; 5] = ["", "\u{0}", "a", "a\u{0}", "a\u{0}b"];
+
+fn run_zo_nul(c: &ListCase) -> R {
+    let l = &c.list;
+    let has_nul = l.iter().any(|s| s.contains('\u{0}'));
+    let is_sorted = l.windows(2).all(|w| w[0] <= w[1]);
+    let mut sorted = l.clone();
+    sorted.sort();
+    let (r, want) = match c.v {
+        0 => (ZoSortedStrVec::from_sorted_strings(l.clone()), l.clone()),
+        1 => {
+            let mut d = sorted.clone();
+            d.dedup();
+            (ZoSortedStrVec::from_strings(l.clone()), d)
+        }
+        _ => (SortableStrVec::from_iter(l.iter()).and_then(ZoSortedStrVec::from_sortable_str_vec), sorted.clone()),
+    };
+    match r {
+        Err(e) => {
+            ensure!(has_nul || (c.v == 0 && !is_sorted), "construct", "nul/refused_without_nul", "constructor {} refused {:?}: {e}", c.v, l);
+            Ok(Outcome::pass(if has_nul { "nul_refused" } else { "unsorted_refused" }))
+        }
+        Ok(z) => {
+            ensure!(c.v != 0 || is_sorted, "construct", "unsorted_accepted", "from_sorted_strings accepted the unsorted list {:?}", l);
+            // accepted: then every string must come back whole
+            let got: Vec<&str> = z.iter().collect();
+            ensure!(got == want.iter().map(|s| s.as_str()).collect::<Vec<_>>() && z.len() == want.len(), "sorted_enumeration", if has_nul { "nul/accepted_but_cut_short" } else { "nul/plain" }, "constructor {} accepted {:?} but enumerates {:?}", c.v, l, got);
+            for s in &want {
+                ensure!(z.contains(s), "binary_search", "nul/contains", "contains({s:?}) is false on {:?}", want);
+            }
+            Ok(Outcome::pass(if has_nul { "nul_accepted_whole" } else { "no_nul" }))
+        }
+    }
+}
+
+const LONG_KEYS: [&str; 16] = [
+    "",
+    "abcdezga", // differs from the others inside the first 8-byte word, with the opposite order in its last byte
+    "abcdefg",
+    "abcdefgh",
+    "abcdefgha",
+    "abcdefghb",
+    "abcdefgh\u{7f}",
+    "abcdefgh\u{e9}",
+    "abcdefgh\u{10FFFF}",
+    "abcdefghabcdefgh",
+    "abcdefghabcdefgi",
+    "abcdefghabcdefghabcdefghabcdefgha",
+    "abcdefghabcdefghabcdefghabcdefgh\u{e9}",
+    "\u{e9}",
+    "\u{7f}",
+    "z",
+];
+
+fn gen_long_keys(variants: u8) -> impl Fn(Tier, &mut dyn FnMut(ListCase) -> bool) {
+    move |tier, f| {
+        all_strings(&LONG_KEYS, tier.pick(3, 4), &mut |l| {
+            // thorough: length-4 lists only in non-decreasing index order (multisets), the orders are covered up to length 3
+            if l.len() == 4 && !l.windows(2).all(|w| w[0] <= w[1]) {
+                return true;
+            }
+            (0..variants).all(|v| f(ListCase { list: l.iter().map(|s| s.to_string()).collect(), v }))
+        });
+    }
+}
+
+// ---- SortableStrVec: strings around the 20-bit length field of the packed entry --------------------------------
+
+#[derive(Serialize, Deserialize, Hash, Clone, Debug)]
+pub struct LongStr {
+    len: usize,
+    /// 0 = the only string, 1 = between two short strings
+    place: u8,
+}
+
+fn run_long_string(c: &LongStr) -> R {
+    let big = "x".repeat(c.len);
+    let mut items: Vec<&str> = Vec::new();
+    if c.place == 1 {
+        items.push("y");
+    }
+    items.push(&big);
+    if c.place == 1 {
+        items.push("a");
+    }
+    let class = if c.len < (1 << 20) { "len<2^20" } else { "len>=2^20" };
+    let mut v = SortableStrVec::new();
+    for s in &items {
+        if let Err(e) = v.push_str(s) {
+            // a refusal is fine: the property is about what is enumerated
+            return Ok(Outcome::pass(&format!("refused/{class}: {}", &e.to_string()[..20.min(e.to_string().len())])));
+        }
+    }
+    let show = |s: Option<&str>| s.map(|s| format!("{} bytes starting {:?}", s.len(), &s[..s.len().min(3)]));
+    for (i, s) in items.iter().enumerate() {
+        ensure!(v.get(i) == Some(*s), "enumeration", format!("long_string/get/{class}"), "push_str of a {}-byte string succeeded but get({i}) = {:?}, want {:?}", c.len, show(v.get(i)), show(Some(*s)));
+    }
+    let got: Vec<&str> = v.iter().collect();
+    ensure!(got == items, "enumeration", format!("long_string/iter/{class}"), "iter() after pushing a {}-byte string yields lengths {:?}", c.len, got.iter().map(|s| s.len()).collect::<Vec<_>>());
+    must(v.sort(), "sorted_enumeration", "sort_err")?;
+    let mut sorted = items.clone();
+    sorted.sort();
+    let got: Vec<&str> = v.iter_sorted().collect();
+    ensure!(got == sorted, "sorted_enumeration", format!("long_string/sorted/{class}"), "iter_sorted() after pushing a {}-byte string yields lengths {:?}", c.len, got.iter().map(|s| s.len()).collect::<Vec<_>>());
+    ensure!(v.binary_search(&big).map(|i| v.get_sorted(i) == Some(big.as_str())) == Ok(true), "binary_search", format!("long_string/{class}"), "binary_search does not find the {}-byte string", c.len);
+    Ok(Outcome::pass(&format!("stored/{class}")))
+}
+
+// ---- join: many parts, long parts, a builder that is built, extended and built again ---------------------------
+
+#[derive(Serialize, Deserialize, Hash, Clone, Debug)]
+pub struct JoinGrid {
+    n: usize,
+    /// 0 = the five small parts in rotation, 1 = parts of lengths (i*37)%300 (multi-byte characters inside), 2 = only empty parts,
+    /// 3 = parts that are not valid UTF-8 on their own (join / join_bytes_iter / join_fast_str only)
+    kind: u8,
+    sep: usize,
+    /// the builder gets the first `split` parts, is built, gets the rest, is built again
+    split: usize,
+}
+const GRID_SEPS: [&str; 5] = ["", ",", "ab", "\u{e9}", "-- a separator longer than most parts --"];
+
+fn run_join_grid(c: &JoinGrid) -> R {
+    let sep = GRID_SEPS[c.sep];
+    let class = format!("grid/kind{}/n{}/sep{}", c.kind, if c.n <= 8 { "<=8" } else { ">8" }, sep.len().min(3));
+    if c.kind == 3 {
+        static RAW: [&[u8]; 5] = [b"\xFF", b"a\x80", b"", b"ok", b"\x80\xFFz"];
+        let bparts: Vec<&'static [u8]> = (0..c.n).map(|i| RAW[(i * 3 + i / 5) % 5]).collect();
+        let want_bytes = bparts.join(sep.as_bytes());
+        ensure!(join(sep.as_bytes(), &bparts) == want_bytes, "join", format!("join/{class}"), "join of {} raw parts differs from slice::join", c.n);
+        ensure!(join_bytes_iter(sep.as_bytes(), bparts.iter().copied()) == want_bytes, "join", format!("join_bytes_iter/{class}"), "join_bytes_iter of {} raw parts differs", c.n);
+        // every part on its own converts like FastStr::into_string (each stray byte becomes U+FFFD); none of the parts ends or
+        // starts inside a multi-byte sequence, so converting part by part or the joined bytes as a whole is the same thing
+        let fs: Vec<FastStr> = bparts.iter().map(|b| FastStr::new(b)).collect();
+        let want = bparts.iter().map(|b| String::from_utf8_lossy(b).into_owned()).collect::<Vec<_>>().join(sep);
+        debug_assert_eq!(want, String::from_utf8_lossy(&want_bytes));
+        let g = join_fast_str(sep, &fs);
+        ensure!(g == want, "join", format!("join_fast_str/{class}"), "join_fast_str over parts that are not UTF-8 = {g:?} want {want:?}");
+        return Ok(Outcome::pass(&class));
+    }
+    let owned: Vec<String> = (0..c.n)
+        .map(|i| match c.kind {
+            0 => JOIN_PARTS[(i * 2 + i / 5) % 5].to_string(),
+            1 => {
+                let len = (i * 37) % 300;
+                let mut s: String = std::iter::repeat((b'a' + (i % 26) as u8) as char).take(len).collect();
+                if i % 3 == 0 {
+                    s.push('\u{e9}');
+                }
+                s
+            }
+            _ => String::new(),
+        })
+        .collect();
+    let parts: Vec<&str> = owned.iter().map(|s| s.as_str()).collect();
+    let want = parts.join(sep);
+    let bparts: Vec<&[u8]> = parts.iter().map(|p| p.as_bytes()).collect();
+    ensure!(join(sep.as_bytes(), &bparts) == want.as_bytes(), "join", format!("join/{class}"), "join of {} parts differs from slice::join", c.n);
+    ensure!(join_str(sep, &parts) == want, "join", format!("join_str/{class}"), "join_str of {} parts differs", c.n);
+    let fs: Vec<FastStr> = parts.iter().map(|p| FastStr::from_string(p)).collect();
+    ensure!(join_fast_str(sep, &fs) == want, "join", format!("join_fast_str/{class}"), "join_fast_str of {} parts differs", c.n);
+    ensure!(join_iter(sep, parts.iter()) == want && join_iter(sep, owned.iter()) == want, "join", format!("join_iter/{class}"), "join_iter of {} parts differs", c.n);
+    // the builder: some parts, build, the rest (chained pushes), build again, finish
+    let split = c.split.min(c.n);
+    let mut b = JoinBuilder::with_capacity(sep, if c.n % 2 == 0 { 0 } else { c.n });
+    for p in &parts[..split] {
+        b.push(p);
+    }
+    let first = b.build();
+    ensure!(first == parts[..split].join(sep) && b.len() == split, "join", format!("JoinBuilder/first_build/{class}"), "builder with the first {split} of {} parts builds {:?}", c.n, &first[..first.len().min(40)]);
+    let mut rest = parts[split..].iter();
+    while let Some(p) = rest.next() {
+        match rest.next() {
+            Some(q) => {
+                b.push(p).push(q);
+            }
+            None => {
+                b.push(p);
+            }
+        }
+    }
+    ensure!(b.len() == c.n && b.is_empty() == (c.n == 0), "join", "builder/len", "len() = {} after {} pushes", b.len(), c.n);
+    let second = b.build();
+    ensure!(second == want, "join", format!("JoinBuilder/build_after_build/{class}"), "builder built after {split} parts, extended to {} parts and built again: {} bytes, want {} bytes", c.n, second.len(), want.len());
+    ensure!(b.finish() == want, "join", format!("JoinBuilder/finish/{class}"), "finish() differs");
+    Ok(Outcome::pass(&class))
+}
+
 pub fn register(reg: &mut Registry) {
     reg.add(fam(
         "SortedVecLexIterator",
-        "all sorted lists (duplicates allowed) of length <=5 (thorough <=7) over {\"\",\"a\",\"ab\",\"b\"} x {direct constructor, LexIteratorBuilder (2 settings)}: forward walk, collect_all, backward walk, seek_start/end, seek_lower_bound/seek_upper_bound for 8 probe targets (then walking to the end), count_with_prefix for 5 prefixes, find_common_prefix",
+        "all sorted lists (duplicates allowed) of length <=5 (thorough <=7) over {\"\",\"a\",\"ab\",\"b\"} x {direct constructor, LexIteratorBuilder (2 settings)}: forward walk, collect_all, backward walk, seek_start/end, seek_lower_bound/seek_upper_bound for 8 probe targets (then walking to the end), count_with_prefix for 8 prefixes, find_common_prefix; (audit) collect_all / find_common_prefix / count_with_prefix also on iterators that stand at the end, past the end, or at an upper bound",
         |tier, f: &mut dyn FnMut(ListCase) -> bool| {
             all_lists(tier.pick(5, 7), true, &mut |l| (0..3u8).all(|v| f(ListCase { list: l.clone(), v })));
+        },
+        run_sorted_vec,
+    ));
+    reg.add(fam(
+        "SortedVecLexIterator/unicode",
+        "all sorted lists (duplicates allowed) of length <=4 (thorough <=5) over {\"\", a, a+U+00E8, a+U+00E9, U+00E8, U+00E9, U+00E9+a, U+20AC, U+10FFFF} (characters sharing their first byte) x {direct constructor, LexIteratorBuilder}: same clauses as SortedVecLexIterator with every list element, a value just above it and all 9 words as probe targets; find_common_prefix in whole characters",
+        |tier, f: &mut dyn FnMut(ListCase) -> bool| {
+            all_strings(&UNI_WORDS, tier.pick(4, 5), &mut |l| {
+                if !l.windows(2).all(|w| w[0] <= w[1]) {
+                    return true;
+                }
+                (3..5u8).all(|v| f(ListCase { list: l.iter().map(|s| s.to_string()).collect(), v }))
+            });
         },
         run_sorted_vec,
     ));
@@ -428,8 +1048,35 @@ pub fn register(reg: &mut Registry) {
         run_streaming,
     ));
     reg.add(fam(
+        "StreamingLexIterator/grid",
+        "a line of 8185..=8195, 16383..=16385 or 20000 bytes (the reader buffers 8192 bytes) followed by the lines b, b, cc, x {first line, after an empty line, after a one-byte line} x {LF, no final LF, CRLF} x {Cursor, a reader delivering at most 1 / 7 / 8192 bytes per call (via LexIteratorBuilder)}: every line once, whole and in order; current() stable between next() calls; next() keeps returning false after the end",
+        |_t, f: &mut dyn FnMut(StreamGrid) -> bool| {
+            for long in (8185usize..=8195).chain([16383, 16384, 16385, 20000]) {
+                for lead in 0..3u8 {
+                    for style in 0..3u8 {
+                        for chunk in [0usize, 1, 7, 8192] {
+                            if !f(StreamGrid { long, lead, style, chunk }) {
+                                return;
+                            }
+                        }
+                    }
+                }
+            }
+        },
+        run_stream_grid,
+    ));
+    reg.add(fam(
+        "SortedVecLexIterator/history",
+        "ONE iterator per history: all sorted lists (duplicates allowed) of length <=4 (thorough <=5) over {\"\",\"a\",\"ab\",\"b\"} x every sequence of <=3 (thorough <=4) operations over {next, prev, seek_start, seek_end, seek_lower_bound(t), seek_upper_bound(t) for t in {\"\",\"a\",\"ab\",\"c\"}} against a cursor model; after every operation the return value, current(), is_at_start(), is_at_end(), size_hint(); at the end of the history the rest of the list by walking on (prev() from the past-the-end position is unspecified: such histories are skipped)",
+        |tier, f: &mut dyn FnMut(IterHist) -> bool| {
+            let ops: Vec<u8> = (0..12).collect();
+            all_lists(tier.pick(4, 5), true, &mut |l| all_strings(&ops, tier.pick(3, 4), &mut |o| f(IterHist { list: l.clone(), ops: o.to_vec() })));
+        },
+        run_iter_hist,
+    ));
+    reg.add(fam(
         "SortableStrVec",
-        "all lists (any order, duplicates) of length <=4 (thorough <=5) over {\"\",\"a\",\"ab\",\"b\"} + generated lists of n in {31,32,33,100,513,1000} strings x 3 shapes (many duplicates, descending, mixed; empty strings, shared prefixes) x {from_iter, push/push_str} x {sort, radix_sort, sort_lexicographic}: insertion-order access, iter_sorted/get_sorted, binary_search, sort_by_length, sort_by(desc), push after sort followed by a re-sort through sort / radix_sort / sort_lexicographic (three rounds), clone, clear",
+        "all lists (any order, duplicates) of length <=4 (thorough <=5) over {\"\",\"a\",\"ab\",\"b\"} + generated lists of n in {31,32,33,100,513,1000} strings x 3 shapes (many duplicates, descending, mixed; empty strings, shared prefixes) x {from_iter, push/push_str} x {sort, radix_sort, sort_lexicographic}: insertion-order access, iter_sorted/get_sorted, binary_search, sort_by_length, sort_by(desc), push after sort followed by a re-sort through sort / radix_sort / sort_lexicographic (three rounds), clone, clear. Coverage audit: + shapes {keys sharing one or two whole 8-byte words and continuing with bytes >= 0x80, 7 values each repeated >= 32 times} for the same sizes and all 5 shapes for n in {511,512,514,768,769,1025} (block search starts above 2 x 256 strings; whole / partial last block); for lists of >= 31 strings binary_search of every distinct element and of a value just above it, get_sorted for every index",
         |tier, f: &mut dyn FnMut(ListCase) -> bool| {
             if !all_lists(tier.pick(4, 5), false, &mut |l| (0..6u8).all(|v| f(ListCase { list: l.clone(), v }))) {
                 return;
@@ -443,12 +1090,59 @@ pub fn register(reg: &mut Registry) {
                     }
                 }
             }
+            // (audit) the audit shapes for the same sizes, and sizes around the block-search threshold (2 x 256) and around
+            // whole numbers of 256-string blocks, for every shape
+            for (n, shapes) in [(31usize, 3..5u8), (32, 3..5), (33, 3..5), (100, 3..5), (513, 3..5), (1000, 3..5), (511, 0..5), (512, 0..5), (514, 0..5), (768, 0..5), (769, 0..5), (1025, 0..5)] {
+                for shape in shapes {
+                    for v in 0..6u8 {
+                        if tier == Tier::Quick && n > 100 && v % 2 == 1 && shape != 3 {
+                            continue; // quick: the push/push_str construction of the large lists only for one shape
+                        }
+                        if !f(ListCase { list: big_list(n, shape), v }) {
+                            return;
+                        }
+                    }
+                }
+            }
         },
         run_sortable,
     ));
     reg.add(fam(
+        "SortableStrVec/long-keys",
+        "all lists (any order, duplicates) of length <=3 (thorough: + all multisets of 4) over 16 keys: \"\", 7/8/9/16/33-byte keys sharing whole 8-byte words and differing in the byte after them, keys ending in U+007F / U+00E9 / U+10FFFF (bytes >= 0x80 against ASCII), a key that is a prefix of another at a word boundary x {from_iter, push/push_str} x {sort, radix_sort, sort_lexicographic}: same clauses as SortableStrVec, binary_search for every key and a value just above it",
+        gen_long_keys(6),
+        run_sortable,
+    ));
+    reg.add(fam(
+        "SortableStrVec/history",
+        "one vector per history: start {new(), with_capacity(4)+3 strings, 33 generated strings already sorted, default()+2 strings sorted by length} x every sequence of <=4 (thorough <=5) operations over {push_str of \"\"/\"b\"/\"aa\", sort, radix_sort, sort_lexicographic, sort_by_length, sort_by(descending), clear, reserve+shrink_to_fit, clone}; after every operation: len, is_empty, iter, get/get_by_id for every index, and the sorted view of the model (none after a push/clear, else exactly the order of the last sort: iter_sorted, get_sorted for every index, binary_search for 8 probes)",
+        |tier, f: &mut dyn FnMut(VecHist) -> bool| {
+            for start in 0..4u8 {
+                let ops: Vec<u8> = (0..11).collect();
+                if !all_strings(&ops, tier.pick(4, 5), &mut |o| f(VecHist { start, ops: o.to_vec() })) {
+                    return;
+                }
+            }
+        },
+        run_vec_hist,
+    ));
+    reg.add(fam(
+        "SortableStrVec/long-string",
+        "one string of 2^20-1, 2^20, 2^20+1, 2^20+5 or 2^21+3 bytes (the packed entry has a 20-bit length field), alone or between two short strings: push_str either refuses or get/iter/iter_sorted/binary_search return the whole string and the neighbours",
+        |_t, f: &mut dyn FnMut(LongStr) -> bool| {
+            for len in [(1usize << 20) - 1, 1 << 20, (1 << 20) + 1, (1 << 20) + 5, (1 << 21) + 3] {
+                for place in 0..2u8 {
+                    if !f(LongStr { len, place }) {
+                        return;
+                    }
+                }
+            }
+        },
+        run_long_string,
+    ));
+    reg.add(fam(
         "ZoSortedStrVec",
-        "all lists (any order, duplicates) of length <=4 (thorough <=5) over {\"\",\"a\",\"ab\",\"b\"} + generated lists of n in {33,300} x 3 shapes x {from_sorted_strings (unsorted input must be rejected), from_strings (sorted + de-duplicated, as its source documents), from_sortable_str_vec}: iter, get, len, binary_search, contains, range(start,end) over all ordered pairs of 8 probe strings",
+        "all lists (any order, duplicates) of length <=4 (thorough <=5) over {\"\",\"a\",\"ab\",\"b\"} + generated lists of n in {33,300} x 3 shapes x {from_sorted_strings (unsorted input must be rejected), from_strings (sorted + de-duplicated, as its source documents), from_sortable_str_vec}: iter, get (every index), len, binary_search, contains, range(start,end) over all pairs of 8 probe strings (start > end: empty; ExactSizeIterator::len of every range). Coverage audit: + n in {513,1100} x 5 shapes (select samples every 512 set bits), n in {33,300} x the two long-key shapes, n in {33,120} with strings of 0..700 bytes (longer than a 256-bit rank/select line)",
         |tier, f: &mut dyn FnMut(ListCase) -> bool| {
             if !all_lists(tier.pick(4, 5), false, &mut |l| (0..3u8).all(|v| f(ListCase { list: l.clone(), v }))) {
                 return;
@@ -466,7 +1160,36 @@ pub fn register(reg: &mut Registry) {
                     }
                 }
             }
+            // (audit) more than 512 / 1024 strings (the select structure samples every 512th set bit), keys that share whole
+            // words / contain bytes >= 0x80, values repeated >= 32 times, strings longer than a 256-bit rank/select line
+            for (n, shapes) in [(33usize, 3..6u8), (120, 5..6), (300, 3..5), (513, 0..5), (1100, 0..5)] {
+                for shape in shapes {
+                    for v in 0..3u8 {
+                        let mut l = big_list(n, shape);
+                        if v == 0 {
+                            l.sort();
+                        }
+                        if !f(ListCase { list: l, v }) {
+                            return;
+                        }
+                    }
+                }
+            }
         },
+        run_zo,
+    ));
+    reg.add(fam(
+        "ZoSortedStrVec/nul",
+        "all lists of length <=3 over {\"\", NUL, \"a\", \"a\"+NUL, \"a\"+NUL+\"b\"} x the 3 constructors: a list with a NUL inside a string is refused (or, if accepted, enumerated whole - never cut at the NUL); lists without NUL are accepted when sorted",
+        |_t, f: &mut dyn FnMut(ListCase) -> bool| {
+            all_strings(&NUL_WORDS, 3, &mut |l| (0..3u8).all(|v| f(ListCase { list: l.iter().map(|s| s.to_string()).collect(), v })));
+        },
+        run_zo_nul,
+    ));
+    reg.add(fam(
+        "ZoSortedStrVec/long-keys",
+        "all lists of length <=3 (thorough: + all multisets of 4) over the 16 long keys of SortableStrVec/long-keys x the 3 constructors: same clauses as ZoSortedStrVec",
+        gen_long_keys(3),
         run_zo,
     ));
     reg.add(fam(
@@ -476,5 +1199,28 @@ pub fn register(reg: &mut Registry) {
             all_strings(&[0usize, 1, 2, 3, 4], tier.pick(3, 4), &mut |p| (0..SEPS.len()).all(|sep| f(JoinCase { parts: p.to_vec(), sep })));
         },
         run_join,
+    ));
+    reg.add(fam(
+        "join/grid",
+        "n in {2,5,8,9,16,17,33,64} parts x {the five small parts in rotation, parts of 0..299 bytes with multi-byte characters, only empty parts, parts that are not UTF-8 (byte joins and join_fast_str)} x 5 separators (one longer than most parts) x builder split point {0,1,n/2,n}: join, join_str, join_fast_str, join_iter, join_bytes_iter against slice::join; JoinBuilder (with_capacity 0 / n) built after the first `split` parts, extended with chained pushes and built again, finish",
+        |_t, f: &mut dyn FnMut(JoinGrid) -> bool| {
+            for n in [2usize, 5, 8, 9, 16, 17, 33, 64] {
+                for kind in 0..4u8 {
+                    for sep in 0..GRID_SEPS.len() {
+                        let mut splits = vec![0usize, 1, n / 2, n];
+                        splits.dedup();
+                        if kind == 3 {
+                            splits.truncate(1);
+                        }
+                        for split in splits {
+                            if !f(JoinGrid { n, kind, sep, split }) {
+                                return;
+                            }
+                        }
+                    }
+                }
+            }
+        },
+        run_join_grid,
     ));
 }
